@@ -156,6 +156,8 @@ def bridge_file(b):
         return 'Mech.lean'
     if b.startswith('locks_'):
         return 'Locks.lean'
+    if b.startswith('purity_'):
+        return 'Purity.lean'
     if b.startswith('sig') or b.startswith('callArity'):
         return 'Sigs.lean'
     if b.startswith('msg_'):
